@@ -412,22 +412,6 @@ theorem change_content_decodes_nodup (inflate : Bytes → Option Bytes) (deflate
   apply change_content_decodes inflate deflate hcodec dict c
   rw [get_remove (nodup_remove hn _) kFilter kFilter]; simp
 
-/-- removing keys one after the other: any key that is not removed keeps its value -/
-theorem get_removeKeys {d : Dict} (hn : NoDup d) (ks : List Bytes) (q : Bytes) (hq : q ∉ ks) :
-    Dict.get (removeKeys d ks) q = Dict.get d q ∧ NoDup (removeKeys d ks) := by
-  induction ks generalizing d with
-  | nil => exact ⟨rfl, hn⟩
-  | cons k rest ih =>
-    simp only [List.mem_cons, not_or] at hq
-    simp only [removeKeys, List.foldl_cons]
-    have := ih (nodup_remove hn k) hq.2
-    refine ⟨?_, this.2⟩
-    have h1 := this.1
-    simp only [removeKeys] at h1
-    rw [h1, get_remove hn k q]
-    have : ¬ k = q := fun e => hq.1 e.symm
-    simp [this]
-
 /-- what `delete_object`'s action does to a dictionary entry that is not itself a reference to the deleted id -/
 theorem get_deep_del (p : ObjId) (nd : Dict) (hn : NoDup nd) (key : Bytes) (v : Obj)
     (hv : Dict.get nd key = some v) (hnr : isRefTo p v = false) :
